@@ -46,3 +46,78 @@ Theorem C01_remove_shift_refuted :
   w_reason w_remove_shift = 107%N
   /\ member (Expr.ev (snd (w_run w_remove_shift (VObj [])))) (w_final_target w_remove_shift) = false.
 Proof. vm_compute. auto. Qed.
+
+(* ---------- what is proved: soundness on the straight-line fragment (Model/TypeFragment.v) ---------- *)
+
+From VRL Require Import Model.KindDomains Model.TypeFragment Proofs.TypeSoundProofs.
+
+(* `==` and `!=` of the instantiated operator table always produce a boolean (the only hypothesis of the
+   generic theorems of Proofs/TypeSoundProofs.v about the operator table) *)
+Lemma binop_inst_eq : forall x y, exists b, binop_inst OEq x y = Some (VBool b).
+Proof. intros x y. eexists. reflexivity. Qed.
+Lemma binop_inst_ne : forall x y, exists b, binop_inst ONe x y = Some (VBool b).
+Proof. intros x y. eexists. reflexivity. Qed.
+
+(* effect-free expressions (literals, variables, queries on event / metadata / variables / expressions
+   inside C19's get_ok, arrays, objects, groups, == and !=, ! on a boolean-typed operand, exists), typed in
+   a type state G the run-time state conforms to (conf: every variable G knows holds a well-formed member of
+   its kind, event and metadata are well-formed members of the external kinds, no injected fault):
+   type_info leaves G alone; evaluation ends with a value, changes neither variables nor event nor metadata,
+   and the value is a well-formed member of the expression's kind (undefined read as null).
+   For EVERY function table F / T (the fragment contains no calls). *)
+Theorem C01_pure_sound_partial :
+  forall (F : fname -> list value -> option value) (T : fname -> list tdef -> list tdef -> tdef)
+         (e : expr) (G : tstate) (s : state),
+  pure_ok binop_inst T e G = true -> conf G s ->
+  fst (type_info binop_inst T e G) = G
+  /\ exists v s', eval F binop_inst e s = (inl v, s') /\ same_data s s'
+       /\ member v (upgrade_undefined (td_kind (snd (type_info binop_inst T e G)))) = true
+       /\ wf_value v = true.
+Proof. intros F T. exact (pure_sound F binop_inst T binop_inst_eq binop_inst_ne). Qed.
+Print Assumptions C01_pure_sound_partial.
+
+(* a statement of the fragment — such an expression, or its assignment to a variable, to a path below a
+   variable the type state knows, or to an event / metadata path, the path inside C19's ins_ok:
+   the state after it conforms to the type state after it, and its value is in its kind *)
+Theorem C01_statement_sound_partial :
+  forall (F : fname -> list value -> option value) (T : fname -> list tdef -> list tdef -> tdef)
+         (e : expr) (G : tstate) (s : state),
+  stmt_ok binop_inst T e G = true -> conf G s ->
+  exists v s', eval F binop_inst e s = (inl v, s')
+       /\ conf (fst (type_info binop_inst T e G)) s'
+       /\ member v (upgrade_undefined (td_kind (snd (type_info binop_inst T e G)))) = true
+       /\ wf_value v = true.
+Proof. intros F T. exact (stmt_sound F binop_inst T binop_inst_eq binop_inst_ne). Qed.
+Print Assumptions C01_statement_sound_partial.
+
+(* C01 for straight-line programs of the fragment, from the initial state of a run, against the final type
+   information of the program (Program::final_type_info): the run succeeds, its value is in the program's
+   kind, and the event and the metadata it leaves are in the final target kinds.  Every statement is
+   judged (stmts_ok) in the type state the compiler has before it. *)
+Theorem C01_straightline_sound_partial :
+  forall (es : list expr) (ek mk : kind) (event meta : value),
+  es <> [] -> stmts_ok binop_inst T_inst es (ts0 ek mk) = true ->
+  member event ek = true -> wf_value event = true -> member meta mk = true -> wf_value meta = true ->
+  exists v s', run_typed es (st0 [] event meta) = (Success v, s')
+       /\ member v (upgrade_undefined (td_kind (snd (program_type_info_inst es (ts0 ek mk))))) = true
+       /\ member (Expr.ev s') (tgt (fst (program_type_info_inst es (ts0 ek mk)))) = true
+       /\ member (Expr.md s') (mdk (fst (program_type_info_inst es (ts0 ek mk)))) = true.
+Proof. exact (run_sound F_typed binop_inst T_inst binop_inst_eq binop_inst_ne). Qed.
+Print Assumptions C01_straightline_sound_partial.
+
+(* the fragment is inhabited by programs that assign to the event, to variables and below them, and read
+   them back:  .a = 1; x = [.a, {"k": .b}]; x[1].k = "s"; y = (x[0] == 1); .r = !y; exists(.zz)  *)
+Definition frag_prog : list expr :=
+  [ EAssign (TExt PEvent [SField (hx "61")]) (ELit (VInt 1));
+    EAssign (TVar (hx "78") []) (EArr [EQExt PEvent [SField (hx "61")];
+                                       EObj [(hx "6b", EQExt PEvent [SField (hx "62")])]]);
+    EAssign (TVar (hx "78") [SIndex 1; SField (hx "6b")]) (ELit (VBytes (hx "73")));
+    EAssign (TVar (hx "79") []) (EGroup (EOp OEq (EQVar (hx "78") [SIndex 0]) (ELit (VInt 1))));
+    EAssign (TExt PEvent [SField (hx "72")]) (ENot (EVar (hx "79")));
+    EExistsExt PEvent [SField (hx "7a"); SField (hx "7a")] ].
+
+Theorem C01_fragment_nonvacuous :
+  stmts_ok binop_inst T_inst frag_prog ts_default = true
+  /\ fst (w_run frag_prog (VObj [])) = Success (VBool false)
+  /\ Expr.ev (snd (w_run frag_prog (VObj []))) = VObj [(hx "61", VInt 1); (hx "72", VBool false)].
+Proof. vm_compute. auto. Qed.
